@@ -197,6 +197,11 @@ RULES = [
     ('undefined-name', 'assign a {b + 1}'),
     ('undefined-name', 'nosuch 1 2'),
     ('undefined-name', 'print [nosuch 1]'),
+    ('undefined-name', 'assign y y'),
+    ('undefined-name', 'repeat with i from 1 to i begin print i end'),
+    ('undefined-name', 'repeat 3 with i from i to 5 begin print i end'),
+    ('undefined-name', 'repeat 4 with i cycle i begin print i end'),
+    ('undefined-name', 'repeat all as L with i from 1 to i begin print i end'),
     ('nested-define', 'define f begin define g begin print 1 end end'),
     ('missing-end', 'repeat 2 begin hue 5'),
     ('missing-end', 'define f begin hue 5'),
